@@ -1161,6 +1161,22 @@ impl<const N: usize> ScenN<N> {
                     Err(e) => format!("err {}", err_kind(&e)),
                 }
             }
+            "gfc" => {
+                // merged filter of the whole storage (`BloomProvider::get_filter`) probed for one key
+                use pearl::filter::FilterTrait;
+                use pearl::BloomProvider;
+                let k = match Self::key(toks[1]) {
+                    Some(k) => k,
+                    None => return "bad-op".into(),
+                };
+                match st.get_filter().await {
+                    None => "none".into(),
+                    Some(f) => match f.contains_fast(&k) {
+                        pearl::FilterResult::NeedAdditionalCheck => "maybe".into(),
+                        pearl::FilterResult::NotContains => "no".into(),
+                    },
+                }
+            }
             "cf" | "cfs" => {
                 let k = match Self::key(toks[1]) {
                     Some(k) => k,
